@@ -14,6 +14,11 @@
 
 void harness(void) {
   static const char kpat[] = KPAT, epat[] = EPAT;
+#ifdef SPAT
+  static const char spat[] = SPAT;      /* section of each entry ('s' or 't'): sections may re-open */
+#else
+  static const char spat[] = "ssssssss";
+#endif
   econf_file *kf = NULL;
   ASSUME(econf_newKeyFile_with_options(&kf, "") == ECONF_SUCCESS && kf != NULL);
   char vals[NENT][2];
@@ -23,18 +28,20 @@ void harness(void) {
     vals[i][0] = epat[i] == '1' ? 0 : c; vals[i][1] = 0;
     const char k[2] = { kpat[i], 0 };
     /* exactly what the parser stores for "key=value" */
-    econf_err e = store(kf, "s", k, vals[i], (uint64_t)i + 1, NULL, NULL, false, false);
+    const char sec[2] = { spat[i], 0 };
+    econf_err e = store(kf, sec, k, vals[i], (uint64_t)i + 1, NULL, NULL, false, false);
     ASSUME(e == ECONF_SUCCESS);
   }
   kf->join_same_entries = true;
   CHECK(join_same_entries(kf) == ECONF_SUCCESS, "join pass succeeds");
 
-  for (int which = 0; which < 2; which++) {
-    const char key[2] = { (char)('a' + which), 0 };
+  for (int which = 0; which < 4; which++) {
+    const char key[2] = { (char)('a' + which % 2), 0 };
+    const char sec[2] = { which < 2 ? 's' : 't', 0 };
     /* reference list */
     char want[2 * NENT + 2]; int o = 0, n = 0, any = 0;
     for (int i = 0; i < NENT; i++) {
-      if (kpat[i] != key[0]) continue;
+      if (kpat[i] != key[0] || spat[i] != sec[0]) continue;
       any = 1;
       if (epat[i] == '1') { o = 0; n = 0; continue; }         /* an empty definition resets the list */
       if (n) want[o++] = '\n';
@@ -42,7 +49,7 @@ void harness(void) {
     }
     want[o] = 0;
     char *got = NULL;
-    econf_err e = econf_getStringValue(kf, "s", key, &got);
+    econf_err e = econf_getStringValue(kf, sec, key, &got);
     if (!any) { CHECK(e == ECONF_NOKEY, "absent key"); continue; }
     CHECK(e == ECONF_SUCCESS && got != NULL, "key present");
     if (e == ECONF_SUCCESS && got != NULL) {
@@ -50,7 +57,7 @@ void harness(void) {
       free(got);
     }
     econf_ext_value *x = NULL;
-    if (econf_getExtValue(kf, "s", key, &x) == ECONF_SUCCESS) {
+    if (econf_getExtValue(kf, sec, key, &x) == ECONF_SUCCESS) {
       int cnt = 0; while (cnt < NENT + 1 && x->values[cnt]) cnt++;
       CHECK(cnt == (n == 0 ? 1 : n), "extended getter lists one item per joined line");
       econf_freeExtValue(x);
